@@ -45,6 +45,8 @@ def run(prog, rep, tier, snap):
     rep.rule("R19.12", "the unsigned iterators leave the cursor at member + 1 in both representations (value-fixed walk)", 2)
     rep.call(bitint.r19_12, prog, rep)
     from ..rules import state
+    rep.rule("R19.13", "the signed iterators hand out every member once and end with the cursor at 0 (value-fixed walk, call after call)", 2)
+    rep.call(bitint.r19_13, prog, rep, "R19.13", tier)
     rep.rule("R19.8", "the containers' functions carry no state from one container to the next", 1)
     rep.call(state.no_carried_state, prog, rep, "R19.8", "bitint")
 READY = True
